@@ -296,6 +296,36 @@ theorem MapInv.enqueue {c : Conn} (r : Nat) (h : MapInv c) : MapInv (step c (.en
       · intro hb'; simp_all
     · exact h
 
+theorem MapInv.grant {c : Conn} (r : Nat) (h : MapInv c) : MapInv (step c (.grant r)) := by
+  simp only [step]
+  split
+  · exact h
+  · split
+    · rename_i hb hmem
+      have hmem : r ∈ c.sending := by simpa using hmem
+      refine { h with reqOnce := ?_, reqLt := ?_, brk := ?_, permLt := ?_ }
+      · intro x
+        have := h.reqOnce x
+        simp only [List.count_append, List.count_cons, List.count_nil, count_filter_ne]
+        have hpos : 0 < c.sending.count r := List.count_pos_iff.mpr hmem
+        by_cases hx : x = r
+        · subst hx; simp only [srvReqs] at *; simp; omega
+        · have : ¬ (r == x) = true := by simpa using fun e => hx e.symm
+          simp only [srvReqs] at *
+          simp [hx, this]; omega
+      · intro x hx
+        rcases hx with hx | hx | hx
+        · exact h.reqLt x (Or.inl (List.mem_filter.mp hx).1)
+        · exact h.reqLt x (Or.inr (Or.inl hx))
+        · exact h.reqLt x (Or.inr (Or.inr hx))
+      · intro x hx
+        simp only [List.mem_append, List.mem_singleton] at hx
+        rcases hx with hx | hx
+        · exact h.permLt x hx
+        · subst hx; exact h.reqLt x (Or.inl hmem)
+      · intro hb'; simp_all
+    · exact h
+
 theorem MapInv.submitRace {c : Conn} (h : MapInv c) : MapInv (step c .submitRace) := by
   simp only [step]
   split
@@ -842,6 +872,7 @@ theorem MapInv.step {c : Conn} (h : MapInv c) (e : Ev) : MapInv (step c e) := by
   | submit => exact h.submit
   | submitFull => exact h.submitFull
   | enqueue r => exact h.enqueue r
+  | grant r => exact h.grant r
   | submitRace => exact h.submitRace
   | push r => exact h.push r
   | writerTake => exact h.writerTake
@@ -958,6 +989,22 @@ theorem CallerInv.enqueue {c : Conn} (r : Nat) (h : CallerInv c) : CallerInv (st
       · exact Or.inr (Or.inl (List.mem_append_left _ m))
       · exact Or.inr (Or.inr (Or.inl m))
       · exact Or.inr (Or.inr (Or.inr mp))
+    · exact h
+
+theorem CallerInv.grant {c : Conn} (r : Nat) (h : CallerInv c) : CallerInv (step c (.grant r)) := by
+  simp only [step]
+  split
+  · exact h
+  · split
+    · refine { h with tracked := ?_ }
+      intro r' hw
+      rcases h.tracked r' hw with m | m | m | mp
+      · by_cases e : r' = r
+        · subst e; exact Or.inr (Or.inr (Or.inr (by simp)))
+        · exact Or.inl (List.mem_filter.mpr ⟨m, by simpa using e⟩)
+      · exact Or.inr (Or.inl m)
+      · exact Or.inr (Or.inr (Or.inl m))
+      · exact Or.inr (Or.inr (Or.inr (List.mem_append_left _ mp)))
     · exact h
 
 /-- Completing caller `r`'s oneshot with `o` (a frame only if it is `r`'s own). -/
@@ -1290,6 +1337,7 @@ theorem Inv.step {c : Conn} (h : Inv c) (e : Ev) : Inv (Conn.step c e) := by
   | submit => exact h.callers.submit
   | submitFull => exact h.callers.submitFull
   | enqueue r => exact h.callers.enqueue r
+  | grant r => exact h.callers.grant r
   | submitRace => exact h.callers.submitRace
   | push r => exact h.callers.push r
   | writerTake => exact h.callers.writerTake h.map
@@ -1328,5 +1376,56 @@ theorem two_entries_count {l : List (Nat × Nat)} {s s' r : Nat} (hne : s' ≠ s
       simp only [beq_self_eq_true, if_true]
       omega
     · have := ih m1 m2; omega
+
+
+/-- A caller that is still waiting when its answer arrives receives it. -/
+theorem respond_reaches_waiting {c : Conn} (h : Inv c) (hb : c.broken = false) {i s r : Nat}
+    (hi : c.server[i]? = some (s, r)) (hw : getCaller c.callers r = some .waiting) :
+    getCaller (Conn.step c (.respond i)).callers r = some (.delivered (.frame r)) := by
+  have hmem : (s, r) ∈ c.server := List.mem_of_getElem? hi
+  have hq : r ∉ c.sending ∧ r ∉ c.queue ∧ r ∉ c.permits := by
+    have h1 := h.map.reqOnce r
+    have h2 : 0 < (srvReqs c).count r := List.count_pos_iff.mpr (mem_reqs hmem)
+    refine ⟨?_, ?_, ?_⟩ <;> (intro hm; have := List.count_pos_iff.mpr hm; omega)
+  obtain ⟨s', hs'⟩ : ∃ s', c.map.handlers.get s' = some r := by
+    rcases h.callers.tracked r hw with m | m | m | m
+    · exact absurd m hq.1
+    · exact absurd m hq.2.1
+    · exact m
+    · exact absurd m hq.2.2
+  have : s' = s := by
+    have hsrv' := h.map.hSrv s' r hs'
+    -- request ids outstanding at the server are distinct, so the entry of `r` is unique
+    have once := h.map.reqOnce r
+    by_cases e : s' = s
+    · exact e
+    · exfalso
+      have two : 2 ≤ (srvReqs c).count r := two_entries_count e hsrv' hmem
+      omega
+  subst this
+  have hno : s' ∉ c.map.orphans := by
+    intro ho
+    have := (h.map.orphSrv s' ho).2
+    rw [hs'] at this; cases this
+  simp only [Conn.step, hb, Bool.false_eq_true, if_false, hi, hlookup_handler hno hs', getCaller_deliver, hw]
+  simp
+
+
+/-- The reader routes an answer the server owes: the router lives on, exactly that entry leaves the server's
+list, and no caller but the addressee is touched. -/
+theorem respond_owed {c : Conn} (h : Inv c) (hb : c.broken = false) {i s r : Nat}
+    (hi : c.server[i]? = some (s, r)) :
+    (Conn.step c (.respond i)).broken = false ∧ (Conn.step c (.respond i)).server = c.server.eraseIdx i ∧
+    (∀ r', r' ≠ r → getCaller (Conn.step c (.respond i)).callers r' = getCaller c.callers r') := by
+  have hmem : (s, r) ∈ c.server := List.mem_of_getElem? hi
+  rcases lookup_owed h.map hb hmem with ⟨_, hl⟩ | ⟨_, _, hl⟩
+  · simp only [Conn.step, hb, Bool.false_eq_true, if_false, hi, hl]
+    exact ⟨trivial, trivial, fun _ _ => trivial⟩
+  · simp only [Conn.step, hb, Bool.false_eq_true, if_false, hi, hl]
+    refine ⟨trivial, trivial, ?_⟩
+    intro r' hne
+    rw [getCaller_deliver]
+    have : ¬ (r = r' ∧ getCaller c.callers r = some CallerSt.waiting) := fun hc => hne hc.1.symm
+    simp only [this, if_false]
 
 end ScyllaVerif.Conn
